@@ -244,6 +244,10 @@ class Ctx(HeapSnap):
     def opq(self, name):
         return self.eng.fresh_opq(name)
 
+    def regex(self, pattern):
+        """a compiled regular expression object (only literal patterns with a model in builtins_model)"""
+        return self.eng.alloc("pattern", pattern=pattern)
+
     def reclist(self, name, schema):
         from .reclist import new_reclist
 
